@@ -30,6 +30,12 @@ def tip_state(pat, i):
 PAT_W = {0: 2, 1: 1, 2: 1}       # the conserved column appears twice in the alignment (pattern weight 2)
 
 
+def sync():
+    """gen/G_prune.v (the loops of tree_likelihood.py) is written by the C01 translators"""
+    from harness.props import c01
+    return c01.sync()
+
+
 def make_tree(shape, n, rng):
     if shape == "caterpillar":
         t = 0
@@ -258,7 +264,16 @@ def run(tier, seed, replay=None):
                 found.setdefault(k, (k, f"rescale flag went from True to False at x={e['x']!r}", dict(x=e["x"])))
         return list(found.values())
 
-    C.handle_proof(rep, PID, search)
+    ok_sync, info = sync()
+    if not ok_sync:
+        rep.proof = dict(obligations=1, discharged=0, axioms={}, theorems=["T8 translation"], ok=False)
+        fs = search()
+        for f in fs:
+            rep.violation(*f)
+        if not fs:
+            rep.violation("C03:translator-failed", str(info)[:300], dict(error=str(info)), False)
+    else:
+        C.handle_proof(rep, PID, search)
     for f in search():
         rep.violation(*f)
 
